@@ -58,7 +58,7 @@ def closures_without_f1(spec, cfg):
     if not f1:
         return engine.user_skipped_closure(spec), engine.eligible(spec, cfg)
     edges = engine.spec_task_edges(spec) - f1
-    s0 = {t["id"] for t in spec["tasks"] if "skip" in t.get("marks", []) or "skipif_true" in t.get("marks", [])}
+    s0 = {t["id"] for t in spec["tasks"] if {"skip", "skipif_true", "skipif_true_e"} & set(t.get("marks", []))}
     usk = set(s0)
     for t in s0:
         usk |= engine.closure(edges, t, forward=True)
@@ -101,11 +101,11 @@ SHAPES = {
     # 0 -> 1, 2 is `after` 1, 3 independent
     "after": [(0, [100], [110], []), (1, [110], [111], []), (2, [], [112], [1]), (3, [100], [113], [])],
 }
-PLACEMENTS = [["skip"], ["skipif_true"], ["skipif_false"], ["skipif_false", "skipif_true"]]
+PLACEMENTS = [["skip"], ["skipif_true"], ["skipif_false"], ["skipif_false", "skipif_true"], ["skipif_true_e"], ["skipif_false", "skipif_true_e"]]
 
 
 def small_scope(ctx):
-    """fixed shapes × every single placement of skip / skipif(True) / skipif(False) / both skipifs × options × fresh / built state,
+    """fixed shapes × every single placement of skip / skipif(True) / skipif(False) / both skipifs / skipif(True) with an empty reason × options × fresh / built state,
     and every single-task -k, -m on one marked task, both combined. Quick tier: the option sets rotate; thorough: full product."""
     full = ctx.thorough
     keep = 1 if full else (2 if ctx.budget > 1.0 else 4)      # quick: every 4th combination (rotating), intensified: every 2nd
@@ -168,7 +168,7 @@ def histories(ctx):
     hs += small_scope(ctx)
     for i in range(ctx.scale(120, 1300)):
         spec = engine.gen_spec(rng, nt=(2, 7), after_p=0.25, after_needs_prods=not (F1_KNOWN and i % 5 == 0), user_markers=True,
-                               marks=(("skip", 0.12), ("skipif_true", 0.1), ("skipif_false", 0.15), ("persist", 0.08)))
+                               marks=(("skip", 0.12), ("skipif_true", 0.08), ("skipif_true_e", 0.04), ("skipif_false", 0.15), ("persist", 0.08)))
         steps = []
         if rng.random() < 0.4:
             steps.append(["build", {}])        # some tasks already up to date
